@@ -26,6 +26,7 @@ import (
 	"syscall"
 	"time"
 	"unicode/utf8"
+	"unsafe"
 
 	"github.com/xelaj/errs"
 
@@ -626,6 +627,16 @@ func c12ShowClient(m *mtproto.MTProto, err error) string {
 //	C:<loader>                     a client is started on the long-lived loader: NewMTProto(Config{SessionStorage: loader})
 //	H                              everything handed out so far is looked at again: the sessions the Loads returned
 //	                               and the clients started must still be what they were when they were handed out
+//	MS:<n>:<modes>                 the CALLER of the n-th S item goes on using the session object it passed to Store
+//	MG:<n>:<modes>                 the holder of the n-th session a Load returned changes it (its own object now)
+//	MC:<n>:<modes>                 the n-th started client changes (key / key id bytes written in place, a new salt)
+//	V:<n>:<mtime>                  the n-th started client saves its session (SaveSession, through its storage)
+//
+// modes (letters, applied in order) — sessions: k every key byte ^0xff IN PLACE, h the same for the hash, 1 one bit of
+// the first key byte, z key and hash zeroed in place (wiped), s another salt (^salt), n another host name, r re-sliced
+// (key[len/2:], hash[:0]), a appended within capacity, p other slices put in; clients: k, h, z in place (the key through
+// GetAuthKey()), s another salt. What the holder changed itself is what it holds from then on (H compares with that);
+// everything else that was handed out, and everything the loaders return later, must be as if nothing had happened.
 func c12History(shape string, items []string, forceTimes bool) string {
 	path, done := c12Place(shape)
 	defer done()
@@ -645,6 +656,18 @@ func c12History(shape string, items []string, forceTimes bool) string {
 		was  string
 	}
 	var held []heldT
+	var passed []*session.Session // the objects the callers passed to Store (S items), still in the callers' hands
+	nth := func(n int, client bool) *heldT {
+		for j := range held {
+			if (held[j].m != nil) == client {
+				if n == 0 {
+					return &held[j]
+				}
+				n--
+			}
+		}
+		return nil
+	}
 	load := func(i int, l session.SessionLoader) string {
 		s, err := l.Load()
 		out := c12ShowLoad(s, err)
@@ -658,7 +681,9 @@ func c12History(shape string, items []string, forceTimes bool) string {
 		p := strings.Split(it, ":")
 		switch {
 		case p[0] == "S" && len(p) == 4:
-			err := loaders[atoi(p[1])].Store(c12ParseSess(p[2]).real())
+			cs := c12CallerSess(c12ParseSess(p[2]))
+			passed = append(passed, cs)
+			err := loaders[atoi(p[1])].Store(cs)
 			if err == nil {
 				stamp(p[3])
 			}
@@ -674,6 +699,39 @@ func c12History(shape string, items []string, forceTimes bool) string {
 				held = append(held, heldT{item: i, m: m, was: out})
 			}
 			outs = append(outs, out)
+		case p[0] == "MS" && len(p) == 3:
+			if n := atoi(p[1]); n < len(passed) {
+				c12MutateSess(passed[n], p[2])
+				outs = append(outs, "ok")
+			} else {
+				outs = append(outs, "none")
+			}
+		case p[0] == "MG" && len(p) == 3:
+			if h := nth(atoi(p[1]), false); h != nil {
+				c12MutateSess(h.s, p[2])
+				h.was = c12ShowLoad(h.s, nil) // its holder changed it: that is what it holds now
+				outs = append(outs, "ok")
+			} else {
+				outs = append(outs, "none")
+			}
+		case p[0] == "MC" && len(p) == 3:
+			if h := nth(atoi(p[1]), true); h != nil {
+				r := c12MutateClient(h.m, p[2])
+				h.was = c12ShowClient(h.m, nil)
+				outs = append(outs, r)
+			} else {
+				outs = append(outs, "none")
+			}
+		case p[0] == "V" && len(p) == 3:
+			if h := nth(atoi(p[1]), true); h != nil {
+				err := h.m.SaveSession()
+				if err == nil {
+					stamp(p[2])
+				}
+				outs = append(outs, c12ShowStore(err))
+			} else {
+				outs = append(outs, "none")
+			}
 		case p[0] == "H" && len(p) == 1:
 			var changed []string
 			for _, h := range held {
@@ -709,6 +767,98 @@ func c12History(shape string, items []string, forceTimes bool) string {
 }
 
 const c12CfgHost = "cfg.host:443"
+
+// c12CallerSess: the session object a caller passes to Store — its key and hash slices have room behind their length
+// (a buffer the caller goes on using), so that "append within capacity" writes into the same array
+func c12CallerSess(s c12Sess) *session.Session {
+	room := func(b []byte) []byte {
+		if b == nil {
+			return nil
+		}
+		buf := make([]byte, len(b), len(b)+8)
+		copy(buf, b)
+		return buf
+	}
+	return &session.Session{Key: room(s.key), Hash: room(s.hash), Salt: s.salt, Hostname: string(s.host)}
+}
+
+// c12MutateSess: what the holder of a session object does with it afterwards (modes: see c12History)
+func c12MutateSess(s *session.Session, modes string) {
+	for _, c := range modes {
+		switch c {
+		case 'k':
+			for i := range s.Key {
+				s.Key[i] ^= 0xff
+			}
+		case 'h':
+			for i := range s.Hash {
+				s.Hash[i] ^= 0xff
+			}
+		case '1':
+			if len(s.Key) > 0 {
+				s.Key[0] ^= 1
+			}
+		case 'z':
+			for i := range s.Key {
+				s.Key[i] = 0
+			}
+			for i := range s.Hash {
+				s.Hash[i] = 0
+			}
+		case 's':
+			s.Salt = ^s.Salt
+		case 'n':
+			s.Hostname += "x"
+		case 'r':
+			s.Key = s.Key[len(s.Key)/2:]
+			s.Hash = s.Hash[:0]
+		case 'a':
+			s.Key = append(s.Key, 0xa5, 0x5a)
+			s.Hash = append(s.Hash, 0xa5)
+		case 'p':
+			s.Key = []byte{0xde, 0xad}
+			s.Hash = nil
+		}
+	}
+}
+
+// c12MutateClient: a client's key / key id bytes written in place (the key through the slice GetAuthKey returns, the
+// key id through the private field), another salt (the private field, as the handling of bad_server_salt sets it)
+func c12MutateClient(m *mtproto.MTProto, modes string) string {
+	v := reflect.ValueOf(m).Elem()
+	var hash []byte
+	if f := v.FieldByName("authKeyHash"); f.IsValid() && f.Kind() == reflect.Slice && f.Type().Elem().Kind() == reflect.Uint8 {
+		hash = f.Bytes()
+	}
+	key := m.GetAuthKey()
+	for _, c := range modes {
+		switch c {
+		case 'k':
+			for i := range key {
+				key[i] ^= 0xff
+			}
+		case 'h':
+			for i := range hash {
+				hash[i] ^= 0xff
+			}
+		case 'z':
+			for i := range key {
+				key[i] = 0
+			}
+			for i := range hash {
+				hash[i] = 0
+			}
+		case 's':
+			f := v.FieldByName("serverSalt")
+			if !f.IsValid() || f.Kind() != reflect.Int64 || !f.CanAddr() {
+				return "nofield"
+			}
+			p := (*int64)(unsafe.Pointer(f.UnsafeAddr()))
+			*p = ^*p
+		}
+	}
+	return "ok"
+}
 
 func c12Resume(present string, s c12Sess) string {
 	path, done := c12Place("abs")
@@ -1361,6 +1511,25 @@ func c12JudgeHistory(shape string, items, outs []string, forcedTimes bool) strin
 	var last c12Sess
 	var written [][]byte
 	by := -1
+	// what the sessions stored in this history look like in a result line, and the clients started so far: the loader
+	// each was started on and the session it holds (by the oracle's own account: the stored session it was judged to
+	// have resumed with, then whatever the client itself changed — MC items)
+	known := map[string]c12Sess{}
+	type clientT struct {
+		ld    int
+		s     c12Sess
+		known bool
+	}
+	var clients []clientT
+	flip := func(b []byte, zero bool) []byte {
+		c := make([]byte, len(b))
+		for i := range b {
+			if !zero {
+				c[i] = b[i] ^ 0xff
+			}
+		}
+		return c
+	}
 	for i, it := range items {
 		p := strings.Split(it, ":")
 		o := outs[i]
@@ -1390,6 +1559,7 @@ func c12JudgeHistory(shape string, items, outs []string, forcedTimes bool) strin
 					return fmt.Sprintf("item %d: Store failed although the directory exists (%s path): %s", i, shape, o)
 				}
 				st, last, by = stored, c12ParseSess(p[2]), atoi(p[1])
+				known[last.show()] = last
 				written = append(written, specFile(last))
 				cur = atoi(p[3])
 				delete(seen, by) // Store drops what the loader had read
@@ -1448,6 +1618,69 @@ func c12JudgeHistory(shape string, items, outs []string, forcedTimes bool) strin
 				if ld == -1 && !strings.HasPrefix(o, "err:") {
 					return fmt.Sprintf("item %d: torn file read as %s", i, shown)
 				}
+			}
+			if p[0] == "C" {
+				switch {
+				case strings.HasPrefix(outs[i], "C0:"):
+					clients = append(clients, clientT{ld, c12Sess{key: []byte{}, hash: []byte{}, salt: 0, host: []byte(c12CfgHost)}, true})
+				case strings.HasPrefix(outs[i], "C1:"):
+					if k, ok := known[outs[i][3:]]; ok {
+						clients = append(clients, clientT{ld, k, true})
+					} else if st == stored && c12Same(o, last) {
+						clients = append(clients, clientT{ld, last, true})
+					} else {
+						clients = append(clients, clientT{ld: ld})
+					}
+				}
+			}
+		case "MS", "MG":
+			// the holder of a session object changes ITS object: nothing that was stored changes — the judgement of
+			// every later item goes on from the same `last`
+			if o != "ok" && o != "none" {
+				return fmt.Sprintf("item %d: %s — history: %s", i, o, upTo(i))
+			}
+		case "MC":
+			if n := atoi(p[1]); n < len(clients) && o == "ok" {
+				c := &clients[n]
+				for _, m := range p[2] {
+					switch m {
+					case 'k':
+						c.s.key = flip(c.s.key, false)
+					case 'h':
+						c.s.hash = flip(c.s.hash, false)
+					case 'z':
+						c.s.key, c.s.hash = flip(c.s.key, true), flip(c.s.hash, true)
+					case 's':
+						c.s.salt = ^c.s.salt
+					}
+				}
+			} else if o != "none" {
+				return fmt.Sprintf("item %d: %s — history: %s", i, o, upTo(i))
+			}
+		case "V":
+			// SaveSession of a started client: a Store, through the loader it was started on, of what the client holds
+			n := atoi(p[1])
+			if n >= len(clients) {
+				if o != "none" {
+					return fmt.Sprintf("item %d: %s — history: %s", i, o, upTo(i))
+				}
+				break
+			}
+			if c12DirExists(shape) {
+				if o != "ok" {
+					return fmt.Sprintf("item %d: SaveSession failed although the directory exists (%s path): %s", i, shape, o)
+				}
+				c := clients[n]
+				st, last, by = stored, c.s, c.ld
+				if !c.known {
+					st, by = foreign, -1
+				}
+				known[last.show()] = last
+				written = append(written, specFile(last))
+				cur = atoi(p[2])
+				delete(seen, c.ld)
+			} else if o == "ok" {
+				return fmt.Sprintf("item %d: SaveSession reports success without a directory", i)
 			}
 		case "X":
 			// cut short = a strict prefix of the file of a session stored earlier in this history
@@ -2027,6 +2260,8 @@ func c12Gen(g *G) {
 	c12GenWire(g)
 	// a Store cut by the operating system at every byte, with an older session at the path
 	c12GenCut(g)
+	// what a caller does with its own objects after Store returned / after Load handed it a session (c12alias.go)
+	c12GenAlias(g)
 }
 
 // c12GenWire: started clients observed on the wire. Keys of 256 bytes (what a key exchange leaves; random, all zero, all
